@@ -2,112 +2,144 @@ import Mkts.Lemmas.Rows
 /-!
 # C29 — Row serialization round-trips with alignment
 
-Model: `Mkts.Rows` (`SerializeColumnsToRows`, `NewRowSeries`, `Rows.GetColumn`,
-`RowSeries.ToColumnSeries`, `Rows.ToColumnSeries`; utils/io/columnseries.go, rowseries.go,
-datatypes.go).  Column values are opaque byte strings of the element type's size
+Model: `Mkts.Rows` (`ColumnSeries.ToRowSeries`, `SerializeColumnsToRows`, `NewRowSeries`,
+`Rows.GetColumn`, `RowSeries.ToColumnSeries`, `Rows.ToColumnSeries`; utils/io/columnseries.go,
+rowseries.go, datatypes.go).  Column values are opaque byte strings of the element type's size
 (`Extracted.attributeMap`), so every statement covers all element types and all values.
 
-The full statement is false of the code in three input classes (Epoch column not in front,
-int8/bool columns, a second column whose name folds to "epoch"); each has a counterexample
-theorem, and `C29_partial` proves the round trip with exactly these classes excluded.
+Three defects found by this check have been repaired in the code and the model moved with it
+(the model reads each variant off the regenerated skeletons, `Mkts.Rows.epochExact`,
+`byteTyped`, `toRowSeriesReorders`; the `code_*` theorems below pin the repaired variants):
+* C29-F1 `ToRowSeries` now lists the Epoch shape first, as the records are laid out;
+* C29-F2 `GetColumn` returns int8 columns as `[]int8`;
+* C29-F3 `SerializeColumnsToRows` matches the Epoch column by its exact name.
+What remains false of the code: BOOL columns are read back as `[]byte` (kept: bool has no
+wire type) — counterexample `C29_cex_bool`, excluded class `no_bool` in `C29_partial`.
+
+Column order: both readers add the Epoch column first, so the result is the series with its
+Epoch column moved to the front (`epochFront`; the identity when Epoch already is the first
+column, `C29_order`).
 -/
 namespace Mkts.Props.C29
 open Mkts.Rows Mkts.Bytes
 
-/-- The property at full strength: every valid series comes back unchanged (names, order, element
-types, values) from `ToRowSeries` followed by either reader, with and without alignment. -/
+/-- The property at full strength: every valid series comes back from `ToRowSeries` followed by
+either reader with the same names, element types and values, the Epoch column in front and the
+other columns in their order, with and without alignment. -/
 def C29_full : Prop :=
   ∀ (cs : ColumnSeries) (align : Bool), ValidSeries cs →
-    roundTrip cs align = .ok ⟨cs.cols, []⟩ ∧ roundTripRows cs align = .ok ⟨cs.cols, []⟩
+    roundTrip cs align = .ok ⟨epochFront cs.cols, []⟩ ∧ roundTripRows cs align = .ok ⟨epochFront cs.cols, []⟩
 
-/-- Values, names and column order always survive when `Epoch` is in front and has no alias;
-element types come back as `GetColumn` types them (`retype`: BOOL and BYTE become UINT8). -/
-theorem C29_values (cs : ColumnSeries) (align : Bool) (hv : ValidSeries cs)
-    (h1 : epoch_first cs) (h3 : no_epoch_alias cs) :
-    roundTrip cs align = .ok ⟨cs.cols.map retype, []⟩ ∧
-    roundTripRows cs align = .ok ⟨cs.cols.map retype, []⟩ := by
-  obtain ⟨e, rest, hcols, hef, hty⟩ := validEF_of cs hv h1 h3
-  have hcs : cs = ⟨e :: rest, cs.incr⟩ := by cases cs; simp_all
-  rw [hcs]
-  exact ⟨roundTrip_valid e rest _ align hef hty, roundTripRows_valid e rest _ align hef hty⟩
+/-- Names and values of every valid series survive, wherever its Epoch column is and whatever
+the other columns are called; element types come back as `GetColumn` types them (`retype`:
+only BOOL changes, to UINT8). -/
+theorem C29_values (cs : ColumnSeries) (align : Bool) (hv : ValidSeries cs) :
+    roundTrip cs align = .ok ⟨(epochFront cs.cols).map retype, []⟩ ∧
+    roundTripRows cs align = .ok ⟨(epochFront cs.cols).map retype, []⟩ := by
+  obtain ⟨pre, e, post, hcols, hef, hty, hfront, _⟩ := valid_split cs hv
+  have hcs : cs = ⟨pre ++ e :: post, cs.incr⟩ := by cases cs; simp_all
+  have hnd : ((pre ++ e :: post).map (·.name)).Nodup := by rw [← hcols]; exact hv.1
+  rw [hfront, hcs]
+  exact ⟨roundTrip_valid pre post e _ align hef hnd hty, roundTripRows_valid pre post e _ align hef hnd hty⟩
 
-/-- The round trip of C29 with exactly the three failing input classes excluded. -/
-theorem C29_partial (cs : ColumnSeries) (align : Bool) (hv : ValidSeries cs)
-    (h1 : epoch_first cs) (h2 : no_int8_bool cs) (h3 : no_epoch_alias cs) :
-    roundTrip cs align = .ok ⟨cs.cols, []⟩ ∧ roundTripRows cs align = .ok ⟨cs.cols, []⟩ := by
-  have hmap : cs.cols.map retype = cs.cols := by
-    have hid : ∀ c ∈ cs.cols, retype c = c := by   -- every column keeps its type
+/-- The round trip of C29 for every valid series without a BOOL column. -/
+theorem C29_partial (cs : ColumnSeries) (align : Bool) (hv : ValidSeries cs) (h2 : no_bool cs) :
+    roundTrip cs align = .ok ⟨epochFront cs.cols, []⟩ ∧ roundTripRows cs align = .ok ⟨epochFront cs.cols, []⟩ := by
+  have hmap : (epochFront cs.cols).map retype = epochFront cs.cols := by
+    have hid : ∀ c ∈ epochFront cs.cols, retype c = c := by   -- every column keeps its type
       intro c hc
-      have := readType_eq c.typ (hv.2.2 c hc).1 (h2 c hc).1 (h2 c hc).2
+      have hc' : c ∈ cs.cols := by
+        simp only [epochFront, List.mem_append, List.mem_filter] at hc
+        rcases hc with h | h <;> exact h.1
+      have := readType_eq c.typ (hv.2.2 c hc').1 (h2 c hc')
       simp [retype, this]
     rw [List.map_congr_left hid, List.map_id']
-  have := C29_values cs align hv h1 h3
+  have := C29_values cs align hv
   rw [hmap] at this
   exact this
 
+/-- With the Epoch column in front (every bucket schema) the column order is unchanged. -/
+theorem C29_order (cs : ColumnSeries) (hv : ValidSeries cs) (h : epoch_first cs) :
+    epochFront cs.cols = cs.cols := epochFront_of_first cs hv h
+
 /-- Record layout: `recordLen` is the sum of the element sizes, rounded up to a multiple of 8
 with alignment (less than 8 bytes of padding), and the data is exactly one record per row. -/
-theorem C29_record_layout (cs : ColumnSeries) (align : Bool) (hv : ValidSeries cs)
-    (h1 : epoch_first cs) (h3 : no_epoch_alias cs) :
-    ∃ data recordLen, serializeColumnsToRows cs cs.getDataShapes align = .ok (data, recordLen) ∧
+theorem C29_record_layout (cs : ColumnSeries) (align : Bool) (hv : ValidSeries cs) :
+    ∃ data recordLen, serializeColumnsToRows cs (toRowSeriesShapes cs) align = .ok (data, recordLen) ∧
       data.length = cs.len * recordLen ∧
       shapesLen cs.getDataShapes ≤ recordLen ∧
       (align = false → recordLen = shapesLen cs.getDataShapes) ∧
       (align = true → recordLen % 8 = 0 ∧ recordLen < shapesLen cs.getDataShapes + 8) := by
-  obtain ⟨e, rest, hcols, hef, _⟩ := validEF_of cs hv h1 h3
-  have hcs : cs = ⟨e :: rest, cs.incr⟩ := by cases cs; simp_all
-  have hds : cs.getDataShapes = (e :: rest).map toShape := by rw [hcs]; rfl
-  have hlen : cs.len = e.elems.length := by simp [ColumnSeries.len, hcols]
-  have hsl := shapesLen_valid e rest hef
-  refine ⟨(rowsOf e rest align).data, recLen rest align, ?_, ?_, ?_, ?_, ?_⟩
-  · rw [hds, hcs]; exact serialize_ok e rest _ align hef
-  · rw [hlen]; exact flatten_rows_length e rest align hef
-  · rw [hds, hsl]; exact recLen_ge rest align
-  · intro h; rw [hds, hsl, h]; rfl
+  obtain ⟨pre, e, post, hcols, hef, _, _, hlen⟩ := valid_split cs hv
+  have hcs : cs = ⟨pre ++ e :: post, cs.incr⟩ := by cases cs; simp_all
+  have hnd : ((pre ++ e :: post).map (·.name)).Nodup := by rw [← hcols]; exact hv.1
+  have hsub : ∀ c ∈ e :: (pre ++ post), c ∈ pre ++ e :: post := by
+    intro c hc; simp only [List.mem_cons, List.mem_append] at hc ⊢
+    rcases hc with h | h | h
+    · exact Or.inr (Or.inl h)
+    · exact Or.inl h
+    · exact Or.inr (Or.inr h)
+  have hsl : shapesLen cs.getDataShapes = 8 + sizesOf (pre ++ post) := by
+    have h1 : cs.getDataShapes = (pre ++ e :: post).map toShape := by rw [hcs]; rfl
+    rw [h1, sizesOf_eq, sizesOf_append]
+    simp only [sizesOf, List.map_cons, List.sum_cons, hef.etyp, typeSize_INT64, List.map_append, List.sum_append]
+    omega
+  refine ⟨(rowsOf e (pre ++ post) align).data, recLen (pre ++ post) align, ?_, ?_, ?_, ?_, ?_⟩
+  · rw [hcs, toRowSeriesShapes_split pre post e _ hef.ename hnd]
+    exact serialize_ok _ _ e (pre ++ post) align hef hnd hsub
+  · rw [hlen]; exact flatten_rows_length e _ align hef
+  · rw [hsl]; exact recLen_ge _ align
+  · intro h; rw [hsl, h]; rfl
   · intro h
-    rw [hds, hsl, h]
+    rw [hsl, h]
     simp only [recLen, alignedSize, if_true]
     split <;> rename_i hm <;> simp only [beq_iff_eq] at hm <;> omega
 
-/-! ## counterexamples (each is replayed on the implementation: corpus/C29/known_*.ops) -/
+/-! ## the repaired variants are the ones in the source (regenerated skeletons) -/
+
+theorem code_epoch_exact : epochExact = true := by decide
+theorem code_byte_typed : byteTyped = true := by decide
+theorem code_torowseries_reorders : toRowSeriesReorders = true := by decide
+
+/-! ## the former counterexamples now round-trip (witnesses corpus/C29/fixed_*.ops) -/
 
 def b8 (x : UInt8) : Bytes := [x, 0, 0, 0, 0, 0, 0, 0]
 
-/-- `A` int64 before `Epoch`: the records start with the epoch but `GetColumn` walks the shapes -/
-def cexEpochSecond : ColumnSeries := ⟨[⟨"A", INT64, [b8 1, b8 2]⟩, ⟨"Epoch", INT64, [b8 7, b8 8]⟩], []⟩
-/-- an int8 column: comes back as `[]uint8` -/
-def cexInt8 : ColumnSeries := ⟨[⟨"Epoch", INT64, [b8 7]⟩, ⟨"B", BYTE, [[0xff]]⟩], []⟩
-/-- a column `EPOCH` next to `Epoch`: skipped by the record loop but counted in `recordLen` -/
-def cexAlias : ColumnSeries := ⟨[⟨"Epoch", INT64, [b8 7, b8 8]⟩, ⟨"EPOCH", INT32, [[1, 0, 0, 0], [2, 0, 0, 0]]⟩], []⟩
+/-- `A` int64 before `Epoch` (C29-F1 before the repair: A came back holding the epochs) -/
+def exEpochSecond : ColumnSeries := ⟨[⟨"A", INT64, [b8 1, b8 2]⟩, ⟨"Epoch", INT64, [b8 7, b8 8]⟩], []⟩
+/-- an int8 column (C29-F2 before the repair: came back as `[]uint8`) -/
+def exInt8 : ColumnSeries := ⟨[⟨"Epoch", INT64, [b8 7]⟩, ⟨"B", BYTE, [[0xff]]⟩], []⟩
+/-- a column `EPOCH` next to `Epoch` (C29-F3 before the repair: shifted garbage, one row lost) -/
+def exAlias : ColumnSeries := ⟨[⟨"Epoch", INT64, [b8 7, b8 8]⟩, ⟨"EPOCH", INT32, [[1, 0, 0, 0], [2, 0, 0, 0]]⟩], []⟩
 
-theorem C29_cex_epoch_not_first :
-    ValidSeries cexEpochSecond ∧ no_int8_bool cexEpochSecond ∧ no_epoch_alias cexEpochSecond ∧
-    roundTrip cexEpochSecond false =
-      .ok ⟨[⟨"Epoch", INT64, [b8 7, b8 8]⟩, ⟨"A", INT64, [b8 7, b8 8]⟩], []⟩ := by decide
+example : roundTrip exEpochSecond false =
+    .ok ⟨[⟨"Epoch", INT64, [b8 7, b8 8]⟩, ⟨"A", INT64, [b8 1, b8 2]⟩], []⟩ := by decide
+example : roundTrip exInt8 false = .ok ⟨exInt8.cols, []⟩ := by decide
+example : roundTrip exAlias false = .ok ⟨exAlias.cols, []⟩ := by decide
 
-theorem C29_cex_int8 :
-    ValidSeries cexInt8 ∧ epoch_first cexInt8 ∧ no_epoch_alias cexInt8 ∧
-    roundTrip cexInt8 false = .ok ⟨[⟨"Epoch", INT64, [b8 7]⟩, ⟨"B", UINT8, [[0xff]]⟩], []⟩ := by decide
+/-! ## what is still false: BOOL columns -/
 
-theorem C29_cex_epoch_alias :
-    ValidSeries cexAlias ∧ epoch_first cexAlias ∧ no_int8_bool cexAlias ∧
-    roundTrip cexAlias false =
-      .ok ⟨[⟨"Epoch", INT64, [b8 7]⟩, ⟨"EPOCH", INT32, [[8, 0, 0, 0]]⟩], []⟩ := by decide
+/-- a bool column: comes back as `[]uint8` -/
+def cexBool : ColumnSeries := ⟨[⟨"Epoch", INT64, [b8 7]⟩, ⟨"F", BOOL, [[1]]⟩], []⟩
+
+theorem C29_cex_bool :
+    ValidSeries cexBool ∧ epoch_first cexBool ∧
+    roundTrip cexBool false = .ok ⟨[⟨"Epoch", INT64, [b8 7]⟩, ⟨"F", UINT8, [[1]]⟩], []⟩ := by decide
 
 theorem C29_not_full : ¬ C29_full := by
   intro h
-  have h1 := (h cexInt8 false C29_cex_int8.1).1
-  rw [C29_cex_int8.2.2.2] at h1
+  have h1 := (h cexBool false C29_cex_bool.1).1
+  rw [C29_cex_bool.2.2] at h1
   exact absurd h1 (by decide)
 
-/-! ## non-vacuity: the hypotheses of `C29_partial` hold for a non-trivial series -/
+/-! ## non-vacuity: the hypotheses of `C29_partial` hold for non-trivial series -/
 
 def sample : ColumnSeries :=
-  ⟨[⟨"Epoch", INT64, [b8 1, b8 2, b8 3]⟩, ⟨"Open", FLOAT32, [[1, 2, 3, 4], [5, 6, 7, 8], [9, 10, 11, 12]]⟩,
-    ⟨"Flag", UINT8, [[1], [0], [1]]⟩], []⟩
+  ⟨[⟨"Open", FLOAT32, [[1, 2, 3, 4], [5, 6, 7, 8], [9, 10, 11, 12]]⟩, ⟨"Epoch", INT64, [b8 1, b8 2, b8 3]⟩,
+    ⟨"Flag", BYTE, [[1], [0xff], [1]]⟩, ⟨"epoch", UINT8, [[1], [0], [1]]⟩], []⟩
 
-example : ValidSeries sample ∧ epoch_first sample ∧ no_int8_bool sample ∧ no_epoch_alias sample := by decide
-example : roundTrip sample true = .ok ⟨sample.cols, []⟩ := (C29_partial sample true (by decide) (by decide) (by decide) (by decide)).1
-example : (serializeColumnsToRows sample sample.getDataShapes true).map (fun p => (p.1.length, p.2)) = .ok (48, 16) := by decide
+example : ValidSeries sample ∧ no_bool sample := by decide
+example : roundTrip sample true = .ok ⟨epochFront sample.cols, []⟩ := (C29_partial sample true (by decide) (by decide)).1
+example : (serializeColumnsToRows sample (toRowSeriesShapes sample) true).map (fun p => (p.1.length, p.2)) = .ok (48, 16) := by decide
 
 end Mkts.Props.C29
